@@ -148,9 +148,20 @@ void genPfor(Prng& r, Plan& p, int tier)
 		i0 = r.range(-1000, 1000);
 		i1 = i0 + r.range(0, 300);
 	}
+	int64_t n = biased(r, 1, 12, {1, 2, 8, 12});
+	uint64_t idx = genRunIndex();
+	if (idx % 2 == 0 && idx < 0xfffffff0ULL)
+	{
+		// every second run walks through all 44 x 44 x 12 = 23 232 (i0, i1, n) triples of the quantifier in order,
+		// each time under a different seeded schedule
+		uint64_t t = (idx / 2) % 23232;
+		n = 1 + (int64_t)(t % 12);
+		i1 = -3 + (int64_t)((t / 12) % 44);
+		i0 = -3 + (int64_t)(t / (12 * 44));
+	}
 	p.p["i0"] = i0;
 	p.p["i1"] = i1;
-	p.p["n"] = biased(r, 1, 12, {1, 2, 8, 12});
+	p.p["n"] = n;
 	p.p["body"] = r.below(3);
 	p.p["k"] = r.below(5);
 }
@@ -522,7 +533,7 @@ const char* STUB = "pthread primitives (create/join/detach/cancel, mutex, cond, 
 REGISTER_SCENARIO(c13_basic, "C13", "thread_basic", genBasic, runBasic, 300000, 10000000, {2, 4, 16, 64}, 30, 200000, 600.0,
                   "non-trivial: >=2 threads overlapped or a thread had an empty body (worker can finish before its creator resumes); distinct by plan x schedule signature", REAL, STUB, true);
 REGISTER_SCENARIO(c13_pfor, "C13", "parallel_for", genPfor, runPfor, 300000, 10000000, {2, 4, 16, 64}, 30, 400000, 600.0,
-                  "non-trivial: range of >=2 indices on >=2 threads; distinct by (i0,i1,n) x schedule signature", REAL, STUB, true);
+                  "every second run enumerates the 23 232 triples (i0,i1,n) in [-3,40]^2 x [1,12] in order (the others draw boundary-biased and larger ranges); non-trivial: range of >=2 indices on >=2 threads; distinct by (i0,i1,n) x schedule signature", REAL, STUB, true);
 REGISTER_SCENARIO(c13_pinv, "C13", "parallel_invoke", genPinv, runPinv, 100000, 3000000, {2, 4, 16}, 30, 200000, 600.0, "every run (2-4 callables overlap); distinct by plan x schedule signature", REAL,
                   STUB, true);
 REGISTER_SCENARIO(c13_group, "C13", "thread_group", genGroup, runGroup, 100000, 3000000, {2, 4, 16}, 30, 200000, 600.0, "non-trivial: >=2 members; distinct by plan x schedule signature", REAL, STUB, true);
